@@ -2,6 +2,7 @@ import TucanProofs.Lemmas.RoundTripPipeline
 import TucanProofs.Lemmas.OracleNonempty
 import TucanProofs.Lemmas.EdgeCount
 import TucanProofs.Examples
+import TucanProofs.Lemmas.FilesMol
 /-!
 # C03 — a TUCAN string reconstructs its molecule and is a fixed point of the pipeline
 
@@ -30,6 +31,15 @@ theorem C03_emitted_string_parses (m : Graph)
     (hpos : ∀ n ∈ m.nodes, (∀ v, n.attrs.mass = some v → 0 < v) ∧ (∀ v, n.attrs.rad = some v → 0 < v)) :
     ∃ toks, lex (serializedText m) = some toks ∧ parseTucan toks = some (astOf m) ∧ Sentence toks (astOf m) :=
   serialize_parses m hsyms hpos
+
+/-- **… for every conformant molfile**: the string of the graph either reader returns for a file stating a
+molecule within the CTfile specification parses back to that graph under a renaming of its atoms. -/
+theorem C03_molfile_roundtrip (order : Graph → List Nat) (hperm : ∀ r : Graph, r.WF → (order r).Perm r.labels)
+    (g : Graph) (m : Mol) (c : List (Str × Str × Str)) (hc : c.length = m.atoms.length)
+    (hm : m.Conformant) (hg : IsGraphOf g m c)
+    (hsize : (natRepr (m.atoms.length + 1)).length ≤ intMaxStrDigits)
+    (s : Str) (h : tucanOf order g = .ok s) : ∃ H τ, graphFromTucan s = .ok H ∧ Iso SameIdent τ g H :=
+  (isGraphOf_string_is_sentence order hperm g m c hc hm hg hsize s h).2
 
 /-- **Fixed point.**  Canonicalizing and serializing the parsed graph reproduces the identical string, for
 every oracle meeting the bliss contract. -/
